@@ -3,7 +3,7 @@ import io, os, struct, sys
 sys.path.insert(0, os.path.dirname(__file__))
 from _common import main
 
-BOUND = 'files of several hundred rows (> 64 KiB); seeded synthetic extract files: random table-index assignments (incl. unconfigured tables), 0..5 rows per table interleaved, every packaged table plus generated layouts (incl. a redefinition of a packaged table name), compressed and expanded, latin_1/cp500, blocked/unblocked; two readers of the same table in one process; files without trailer / tables without configuration'
+BOUND = 'two files in one process whose indexes assign different sub ids, with rows the second index does not list; files of several hundred rows (> 64 KiB); seeded synthetic extract files: random table-index assignments (incl. unconfigured tables), 0..5 rows per table interleaved, every packaged table plus generated layouts (incl. a redefinition of a packaged table name), compressed and expanded, latin_1/cp500, blocked/unblocked; two readers of the same table in one process; files without trailer / tables without configuration'
 
 
 def frame(recs, blocked):
@@ -73,6 +73,33 @@ def oracle(inp):
         other = IpmParamReader(io.BytesIO(frame([r.encode(enc) for r in recs[:len(names) + 1]] + [(x if not expanded else c).encode(enc) for _, x, c in data_x], blocked)),
                                want_tid, encoding=enc, param_config=tables, blocked=blocked, expanded=not expanded)
         list(other)
+    if inp.get('orphans') and not expanded:
+        # a second file in the same process: the requested table has ANOTHER sub id there, and rows carrying the first file's
+        # sub id are not listed in the second file's index at all -> they belong to no table and must not be returned
+        list(readers[0])
+        old_sub = subs[want_tid]
+        new_sub = '%03d' % ((int(old_sub) + 1) % 1000)
+        while new_sub in subs.values():
+            new_sub = '%03d' % ((int(new_sub) + 1) % 1000)
+        recs2 = []
+        for t in names:
+            line = list(' ' * 300)
+            line[11:19] = 'IP0000T1'
+            line[19:27] = t
+            line[243:246] = new_sub if t == want_tid else subs[t]
+            recs2.append(''.join(line))
+        recs2.append('TRAILER RECORD IP0000T1' + ' ' * 40)
+        body2 = []
+        for k in range(4):
+            ts = '%07d' % (1234567 + k)
+            body2.append((new_sub if k % 2 == 0 else old_sub, ts + 'A' + (new_sub if k % 2 == 0 else old_sub) + ('ROW%d' % k).ljust(150, 'x')))
+        recs2 += [c for _, c in body2]
+        r2 = IpmParamReader(io.BytesIO(frame([r.encode(enc) for r in recs2], blocked)), want_tid, encoding=enc, param_config=tables, blocked=blocked)
+        got2 = list(r2)
+        want2 = [c for sub, c in body2 if sub == new_sub]
+        if len(got2) != len(want2):
+            return 'rows: second file in the same process: %d rows returned for table %s, its own index assigns it %d rows (rows with a sub id the index does not list were returned)' % (len(got2), want_tid, len(want2))
+        return None
     got = list(readers[0])
     want = [(x, c) for t, x, c in data_x if t == want_tid]
     if len(got) != len(want):
@@ -96,6 +123,9 @@ def cases(tier, rng):
                     for table in list(config['mci_parameter_tables']) + ['IP0999T1']:
                         gen = table == 'IP0999T1' or seed % 2 == 1
                         yield {'seed': seed, 'enc': enc, 'blocked': blocked, 'expanded': expanded, 'table': table, 'generated': gen, 'two_readers': seed % 3 == 0}
+    for seed in (1, 2):
+        for blocked in (True, False):
+            yield {'seed': seed, 'enc': 'latin_1', 'blocked': blocked, 'expanded': False, 'table': 'IP0040T1', 'orphans': True}
     # files of several hundred rows (well above 16 / 64 KiB, the usual buffer sizes)
     for blocked in (True, False):
         for expanded in (False, True):
